@@ -659,3 +659,62 @@ def fam_pairs(first_variants=(None, "f2")):
                         yield ("pairs/%s@%d+%s@%d/first-%s" % (na, pa, nb, pb, first),
                                dict(tick=0.125, inits=list(ENV_INITS) + [("v", 0), ("c", 0)], framers=[fm] + extra),
                                dict(kind="pairs"))
+
+
+# ------------------------------------------------------------------------------- thorough-tier extensions
+
+def fam_cond_aux_two():
+    """Two conditional auxiliaries on one chain f0 > f1 > f2 (+ f3): x on frame dx (condition e0), y on frame dy
+    (condition e1), all kind pairs, every dx <= dy; a transition on e0 and e1 together from f2 / f0 to f3."""
+    names = ["f0", "f1", "f2", "f3"]
+    parents = (None, 0, 1, None)
+    ctxs = ("enter", "exit", "recur", "precur")
+    both = [E0, E1]
+    for kx in ("now", "repeat1", "repeat2", "never"):
+        for ky in ("now", "repeat1", "never"):
+            for dx in (0, 1, 2):
+                for dy in (0, 1, 2):
+                    for order in ("xy", "yx") if dx == dy else ("xy",):
+                        for s in (0, 2):
+                            frames = []
+                            for i, nm in enumerate(names):
+                                items = recs(nm, ctxs)
+                                pre = []
+                                ax = ("auxif", "x", [E0])
+                                ay = ("auxif", "y", [E1])
+                                here = []
+                                if i == dx:
+                                    here.append(ax)
+                                if i == dy:
+                                    here.append(ay)
+                                if order == "yx":
+                                    here.reverse()
+                                pre += here
+                                if s == i:
+                                    pre.append(("go", "f3", both))
+                                items = items + pre + [("rec", "precur", nm + ".pz")]
+                                if i == 3:
+                                    items.append(("go", "f0", [E1]))
+                                frames.append(dict(name=nm, over=names[parents[i]] if parents[i] is not None else None, items=items))
+                            yfm = aux_framer_ext("y", ky)
+                            yield ("condaux2/%s-%s/dx%d-dy%d-%s/go%d" % (kx, ky, dx, dy, order, s),
+                                   dict(tick=0.125, inits=list(ENV_INITS),
+                                        framers=[dict(name="m", schedule="active", frames=frames), aux_framer_ext("x", kx), yfm]),
+                                   dict())
+
+
+def fam_clocks_deep():
+    """More ticks / thresholds, and clocks read in a parent frame while a child frame transitions (a transition
+    inside the outline restarts the framer's clocks, so the parent's timeout is measured from the last change)."""
+    ctxs = ("enter", "exit")
+    for tick in (0.03125, 0.125, 0.5, 0.025, 0.1, 0.7):
+        Ts = sorted(set([tick, 2 * tick, 2.5 * tick, 5 * tick, 0.7, 2.0]))
+        for T in Ts:
+            for N in (1, 2, 4, 8):
+                frames = [dict(name="p", items=recs("p", ctxs) + [("timeout", T)], next="q"),
+                          dict(name="a", over="p", items=recs("a", ctxs) + [("repeat", N)]),
+                          dict(name="b", over="p", next="a", items=recs("b", ctxs) + [("repeat", N + 1)]),
+                          dict(name="q", next="p", items=recs("q", ctxs) + [("go", "next", [("elapsed", ">=", T, False), ("recurred", ">=", N, False)])])]
+                yield ("clocks-deep/%r/T%r/N%d" % (tick, T, N),
+                       dict(tick=tick, inits=[], framers=[dict(name="m", schedule="active", frames=frames)]),
+                       dict(tick=tick, T=T, N=N, clocked=()))
